@@ -31,8 +31,12 @@ Proof.
     rewrite app_assoc. reflexivity.
 Qed.
 
-Lemma run_closed p ops : run p Closed ops = (Closed, []).
-Proof. induction ops as [|o r IH]; [reflexivity|]. cbn [run step]. rewrite IH. reflexivity. Qed.
+(* the transitions of a closed endpoint (patched code): every operation is a no-op *)
+Lemma step_closed k o : step (fixed k) (Closed empty) o = (Closed empty, []).
+Proof. destruct o as [d| |oc]; destruct k; reflexivity. Qed.
+
+Lemma run_closed k ops : run (fixed k) (Closed empty) ops = (Closed empty, []).
+Proof. induction ops as [|o r IH]; [reflexivity|]. cbn [run]. rewrite step_closed, IH. reflexivity. Qed.
 
 Lemma sock_closed_app a b : sock_closed (a ++ b) = sock_closed a || sock_closed b.
 Proof. unfold sock_closed. apply existsb_app. Qed.
@@ -57,7 +61,7 @@ Definition nonempty {A} (l : list A) : bool := match l with [] => false | _ :: _
 Definition inv (s : ostate) : Prop :=
   writing s = nonempty (buf s) /\ (closereq s = true -> nonempty (buf s) = true).
 
-Lemma inv_init : inv {| buf := []; closereq := false; writing := false |}.
+Lemma inv_init : inv empty.
 Proof. split; [reflexivity|discriminate]. Qed.
 
 Definition pay (o : op) : list N := match o with Write d => d | _ => [] end.
@@ -69,14 +73,14 @@ Definition has_fatal (evs : list ev) : bool := existsb fatal_ev evs.
 Definition close_last (st : state) (evs : list ev) : Prop :=
   match st with
   | Open _ => sock_closed evs = false
-  | Closed => exists a, evs = a ++ closing /\ sock_closed a = false
+  | Closed _ => exists a, evs = a ++ closing /\ sock_closed a = false
   end.
 
 (* everything the proofs need to know about one step from an open state *)
 Record step_ok (s : ostate) (o : op) (st' : state) (evs : list ev) : Prop := {
   ok_open : forall s', st' = Open s' ->
             inv s' /\ accepted evs ++ concat (buf s') = concat (buf s) ++ pay o /\ has_fatal evs = false;
-  ok_closed : st' = Closed ->
+  ok_closed : forall c, st' = Closed c -> c = empty /\
             (exists rest, accepted evs ++ rest = concat (buf s) ++ pay o /\
                           (has_fatal evs = false -> rest = [] /\ (closereq s = true \/ o = Close))) /\
             signalled evs = true;
@@ -110,7 +114,7 @@ Proof.
     destruct b as [|d0 b0]; cbn [fst snd].
     + split.
       * discriminate.
-      * intros _. split; [|reflexivity]. exists []. split; [reflexivity|].
+      * intros c E; injection E as <-; split; [reflexivity|]. split; [|reflexivity]. exists []. split; [reflexivity|].
         intros _. split; [reflexivity|right; reflexivity].
       * exists []. split; reflexivity.
     + split.
@@ -137,7 +141,7 @@ Proof.
       * destruct cr; cbn [fst snd].
         -- split.
            ++ discriminate.
-           ++ intros _. split; [|reflexivity].
+           ++ intros c E; injection E as <-; split; [reflexivity|]. split; [|reflexivity].
               exists []. rewrite accepted_app, accepted_closing. cbn [accepted pay].
               rewrite ?app_nil_r.
               split; [exact TD|]. intros _. split; [reflexivity|left; reflexivity].
@@ -168,13 +172,13 @@ Proof.
         destruct (quiet (fixed k) e); cbn [fst snd].
         -- split.
            ++ discriminate.
-           ++ intros _. split; [|reflexivity].
+           ++ intros c E; injection E as <-; split; [reflexivity|]. split; [|reflexivity].
               exists (concat (d :: rest)). cbn [accepted closing pay app].
               rewrite app_nil_r. split; [reflexivity|]. rewrite HF. discriminate.
            ++ exists [SendErr d e]. split; reflexivity.
         -- split.
            ++ discriminate.
-           ++ intros _. split; [|reflexivity].
+           ++ intros c E; injection E as <-; split; [reflexivity|]. split; [|reflexivity].
               exists (concat (d :: rest)). cbn [accepted closing pay app].
               rewrite app_nil_r. split; [reflexivity|]. rewrite HF. discriminate.
            ++ exists [SendErr d e; EvError]. split; reflexivity.
@@ -194,7 +198,7 @@ Lemma run_fixed k : forall ops s, inv s ->
   let evs := snd (run (fixed k) (Open s) ops) in
   (forall s', st' = Open s' ->
       inv s' /\ accepted evs ++ concat (buf s') = concat (buf s) ++ written ops /\ has_fatal evs = false) /\
-  (st' = Closed -> exists rest, accepted evs ++ rest = concat (buf s) ++ written ops) /\
+  (forall c, st' = Closed c -> c = empty /\ exists rest, accepted evs ++ rest = concat (buf s) ++ written ops) /\
   close_last st' evs.
 Proof.
   induction ops as [|o r IH]; intros s Hi; cbn [run fst snd].
@@ -206,25 +210,35 @@ Proof.
     destruct (step (fixed k) (Open s) o) as [st1 e1]. cbn [fst snd] in *.
     assert (HW : written (o :: r) = pay o ++ written r).
     { unfold written. destruct o; reflexivity. }
-    destruct st1 as [s1|].
+    destruct st1 as [s1|c1].
     + destruct (SO s1 eq_refl) as (Hi1 & Hacc1 & Hf1).
       specialize (IH s1 Hi1). destruct (run (fixed k) (Open s1) r) as [st2 e2]. cbn [fst snd] in *.
       destruct IH as (IO & IC & IL). split; [|split].
       * intros s' E. destruct (IO s' E) as (Hi2 & Hacc2 & Hf2). split; [exact Hi2|]. split.
         -- rewrite accepted_app, <- app_assoc, Hacc2, app_assoc, Hacc1, HW, <- app_assoc. reflexivity.
         -- rewrite has_fatal_app, Hf1, Hf2. reflexivity.
-      * intros E. destruct (IC E) as [rest Hr]. exists rest.
+      * intros c E. destruct (IC c E) as [-> [rest Hr]]. split; [reflexivity|]. exists rest.
         rewrite accepted_app, <- app_assoc, Hr, app_assoc, Hacc1, HW, <- app_assoc. reflexivity.
-      * cbn [close_last] in SL. destruct st2 as [s2|]; cbn [close_last] in *.
+      * cbn [close_last] in SL. destruct st2 as [s2|c2]; cbn [close_last] in *.
         -- rewrite sock_closed_app, SL, IL. reflexivity.
         -- destruct IL as [a [Ea Ha]]. exists (e1 ++ a). rewrite Ea, app_assoc. split; [reflexivity|].
            rewrite sock_closed_app, SL, Ha. reflexivity.
-    + rewrite run_closed. cbn [fst snd]. rewrite app_nil_r. split; [|split].
+    + destruct (SC c1 eq_refl) as [-> [[rest [Hr _]] _]].
+      rewrite run_closed. cbn [fst snd]. rewrite app_nil_r. split; [|split].
       * discriminate.
-      * intros _. destruct (SC eq_refl) as [[rest [Hr _]] _]. exists (rest ++ written r).
+      * intros c E. injection E as <-. split; [reflexivity|]. exists (rest ++ written r).
         rewrite app_assoc, Hr, HW, <- app_assoc. reflexivity.
       * exact SL.
 Qed.
+
+Lemma run_init k ops :
+  let st' := fst (run (fixed k) init ops) in
+  let evs := snd (run (fixed k) init ops) in
+  (forall s', st' = Open s' ->
+      inv s' /\ accepted evs ++ concat (buf s') = written ops /\ has_fatal evs = false) /\
+  (forall c, st' = Closed c -> c = empty /\ exists rest, accepted evs ++ rest = written ops) /\
+  close_last st' evs.
+Proof. exact (run_fixed k ops empty inv_init). Qed.
 
 (* ---------------------------------------------------------------- the theorems of Props/C11.v *)
 
@@ -233,19 +247,19 @@ Lemma prefix_all k ops :
   exists rest, accepted (snd (run (fixed k) init ops)) ++ rest = written ops /\
                forall s, fst (run (fixed k) init ops) = Open s -> rest = concat (buf s).
 Proof.
-  destruct (run_fixed k ops _ inv_init) as (IO & IC & _). cbn [buf concat app] in *.
+  destruct (run_init k ops) as (IO & IC & _). cbn [buf concat app] in *.
   fold init in IO, IC.
-  destruct (fst (run (fixed k) init ops)) as [s|] eqn:E.
+  destruct (fst (run (fixed k) init ops)) as [s|c] eqn:E.
   - destruct (IO s eq_refl) as (_ & H & _). exists (concat (buf s)). split; [exact H|].
     intros s0 E0. injection E0 as <-. reflexivity.
-  - destruct (IC eq_refl) as [rest H]. exists rest. split; [exact H|]. discriminate.
+  - destruct (IC c eq_refl) as [_ [rest H]]. exists rest. split; [exact H|]. discriminate.
 Qed.
 
 Lemma interest_iff_buffered k ops s :
   fst (run (fixed k) init ops) = Open s ->
   (writing s = true <-> buf s <> []) /\ (closereq s = true -> buf s <> []).
 Proof.
-  intros E. destruct (run_fixed k ops _ inv_init) as (IO & _ & _). fold init in IO.
+  intros E. destruct (run_init k ops) as (IO & _ & _). fold init in IO.
   destruct (IO s E) as ([Hw Hc] & _ & _). split.
   - rewrite Hw. destruct (buf s); cbn [nonempty]; split; intros H; congruence.
   - intros H. specialize (Hc H). destruct (buf s); [discriminate|discriminate].
@@ -254,16 +268,16 @@ Qed.
 (* the endpoint closes without a fatal refusal only on request and with everything written accepted *)
 Lemma close_after_drain k ops s evs1 o :
   run (fixed k) init ops = (Open s, evs1) ->
-  fst (step (fixed k) (Open s) o) = Closed ->
+  fst (step (fixed k) (Open s) o) = Closed empty ->
   has_fatal (snd (step (fixed k) (Open s) o)) = false ->
   accepted (evs1 ++ snd (step (fixed k) (Open s) o)) = written (ops ++ [o]) /\
   (closereq s = true \/ o = Close) /\ o <> Write (pay o).
 Proof.
   intros R C F.
-  destruct (run_fixed k ops _ inv_init) as (IO & _ & _). fold init in IO. rewrite R in IO. cbn [fst snd] in IO.
+  destruct (run_init k ops) as (IO & _ & _). fold init in IO. rewrite R in IO. cbn [fst snd] in IO.
   destruct (IO s eq_refl) as (Hi & Hacc & _). cbn [buf concat app] in Hacc.
   pose proof (step_fixed k s o Hi) as [_ SC _].
-  destruct (SC C) as [[rest [Hr Hn]] _]. destruct (Hn F) as [-> Hq].
+  destruct (SC _ C) as [_ [[rest [Hr Hn]] _]]. destruct (Hn F) as [-> Hq].
   rewrite app_nil_r in Hr. split; [|split; [exact Hq|]].
   - assert (WS : written [o] = pay o).
     { unfold written. destruct o; cbn [payloads concat pay]; rewrite ?app_nil_r; reflexivity. }
@@ -271,12 +285,47 @@ Proof.
   - destruct o; cbn [pay]; [cbn [step fst] in C|..]; discriminate.
 Qed.
 
-Lemma nothing_after_close k ops1 ops2 :
-  fst (run (fixed k) init ops1) = Closed ->
-  run (fixed k) init (ops1 ++ ops2) = run (fixed k) init ops1.
+(* after the close: no state is kept (the tables are empty), and whatever operations follow - writes, closes,
+   poller iterations with any outcome - change nothing and produce nothing: no send call, no event *)
+Lemma nothing_after_close k ops1 ops2 c :
+  fst (run (fixed k) init ops1) = Closed c ->
+  c = empty /\ run (fixed k) init (ops1 ++ ops2) = run (fixed k) init ops1.
 Proof.
-  intros C. rewrite run_app. destruct (run (fixed k) init ops1) as [st e]. cbn [fst] in C. subst st.
+  intros C. destruct (run_init k ops1) as (_ & IC & _). fold init in IC.
+  destruct (IC c C) as [-> _]. split; [reflexivity|].
+  rewrite run_app. destruct (run (fixed k) init ops1) as [st e]. cbn [fst] in C. subst st.
   rewrite run_closed, app_nil_r. reflexivity.
+Qed.
+
+(* the transitions the model does not transcribe (a `_write` event for a closed endpoint that still has writer
+   interest) are never reached by the patched code *)
+Lemma step_open_modelled k s o : existsb is_unmodelled (snd (step (fixed k) (Open s) o)) = false.
+Proof.
+  destruct s as [b cr w]. destruct o as [d| |oc]; cbn [step buf closereq writing].
+  - reflexivity.
+  - destruct b; reflexivity.
+  - unfold tick. cbn [buf closereq writing]. destruct w; cbn [negb]; [|reflexivity].
+    unfold after_write, set_buf. cbn [buf closereq writing].
+    destruct b as [|d rest]; [destruct cr; reflexivity|].
+    destruct oc as [kk|e].
+    + destruct (if N.to_nat (N.min kk (N.of_nat (length d))) <? length d
+                then skipn (N.to_nat (N.min kk (N.of_nat (length d)))) d :: rest else rest);
+        [destruct cr|]; reflexivity.
+    + rewrite fixed_requeue, fixed_ignore. destruct (transient e); [reflexivity|].
+      destruct (quiet (fixed k) e); reflexivity.
+Qed.
+
+Lemma always_modelled k ops : existsb is_unmodelled (snd (run (fixed k) init ops)) = false.
+Proof.
+  unfold init. generalize inv_init. generalize empty as s.
+  induction ops as [|o r IH]; intros s Hi; [reflexivity|]. cbn [run].
+  pose proof (step_fixed k s o Hi) as [SO SC _]. pose proof (step_open_modelled k s o) as M.
+  destruct (step (fixed k) (Open s) o) as [st1 e1]. cbn [fst snd] in *.
+  destruct st1 as [s1|c1].
+  - destruct (SO s1 eq_refl) as (Hi1 & _). specialize (IH s1 Hi1).
+    destruct (run (fixed k) (Open s1) r) as [st2 e2]. cbn [snd] in *.
+    rewrite existsb_app, M, IH. reflexivity.
+  - destruct (SC c1 eq_refl) as [-> _]. rewrite run_closed. cbn [snd]. rewrite app_nil_r. exact M.
 Qed.
 
 Lemma no_send_after_sockclose_aux a : sock_closed a = false ->
@@ -295,25 +344,27 @@ Qed.
 
 Lemma close_is_last k ops x y :
   snd (run (fixed k) init ops) = x ++ SockClose :: y ->
-  y = [EvDisc] /\ fst (run (fixed k) init ops) = Closed.
+  y = [EvDisc] /\ fst (run (fixed k) init ops) = Closed empty.
 Proof.
-  intros E. destruct (run_fixed k ops _ inv_init) as (_ & _ & IL). fold init in IL.
-  destruct (fst (run (fixed k) init ops)) as [s|]; cbn [close_last] in IL.
+  intros E. destruct (run_init k ops) as (_ & _ & IL). fold init in IL.
+  destruct (run_init k ops) as (_ & IC & _). fold init in IC.
+  destruct (fst (run (fixed k) init ops)) as [s|c]; cbn [close_last] in IL.
   - rewrite E, sock_closed_app in IL. cbn in IL. rewrite orb_true_r in IL. discriminate.
-  - destruct IL as [a [Ea Ha]]. rewrite Ea in E. split; [|reflexivity].
+  - destruct (IC c eq_refl) as [-> _].
+    destruct IL as [a [Ea Ha]]. rewrite Ea in E. split; [|reflexivity].
     exact (no_send_after_sockclose_aux a Ha x y E).
 Qed.
 
 (* a fatal refusal closes the endpoint, is signalled, and the accepted bytes are a prefix *)
 Lemma fatal_signalled k ops s evs1 e :
   run (fixed k) init ops = (Open s, evs1) -> transient e = false -> buf s <> [] ->
-  fst (step (fixed k) (Open s) (Tick (Refuse e))) = Closed /\
+  fst (step (fixed k) (Open s) (Tick (Refuse e))) = Closed empty /\
   signalled (snd (step (fixed k) (Open s) (Tick (Refuse e)))) = true /\
   accepted (snd (step (fixed k) (Open s) (Tick (Refuse e)))) = [] /\
   exists rest, accepted evs1 ++ rest = written ops.
 Proof.
   intros R T B.
-  destruct (run_fixed k ops _ inv_init) as (IO & _ & _). fold init in IO. rewrite R in IO. cbn [fst snd] in IO.
+  destruct (run_init k ops) as (IO & _ & _). fold init in IO. rewrite R in IO. cbn [fst snd] in IO.
   destruct (IO s eq_refl) as ([Hw Hc] & Hacc & _). cbn [buf concat app] in Hacc.
   assert (W : writing s = true). { rewrite Hw. destruct (buf s); [contradiction|reflexivity]. }
   cbn [step]. unfold tick. rewrite W. cbn [negb].
@@ -340,7 +391,7 @@ Qed.
 
 (* ---------------------------------------------------------------- liveness: an accepting OS drains the buffer *)
 
-Definition drained : ostate := {| buf := []; closereq := false; writing := false |}.
+Definition drained : ostate := empty.
 
 Lemma accept_all (kk : N) (d : list N) :
   (N.of_nat (length d) <= kk)%N -> N.to_nat (N.min kk (N.of_nat (length d))) = length d.
@@ -350,7 +401,7 @@ Lemma drains_aux k kk : forall b cr,
   Forall (fun d => (N.of_nat (length d) <= kk)%N) b -> b <> [] ->
   let r := run (fixed k) (Open {| buf := b; closereq := cr; writing := true |})
                (repeat (Tick (Accept kk)) (length b)) in
-  fst r = (if cr then Closed else Open drained) /\ accepted (snd r) = concat b /\
+  fst r = (if cr then Closed empty else Open drained) /\ accepted (snd r) = concat b /\
   sock_closed (snd r) = cr.
 Proof.
   induction b as [|d rest IH]; intros cr HF NE; [contradiction|].
@@ -373,12 +424,12 @@ Lemma drains k ops s evs1 kk :
   run (fixed k) init ops = (Open s, evs1) ->
   Forall (fun d => (N.of_nat (length d) <= kk)%N) (buf s) ->
   let r := run (fixed k) init (ops ++ repeat (Tick (Accept kk)) (length (buf s))) in
-  fst r = (if closereq s then Closed else Open drained) /\
+  fst r = (if closereq s then Closed empty else Open drained) /\
   accepted (snd r) = written ops /\
   sock_closed (snd r) = closereq s.
 Proof.
   intros R HF. cbn zeta. rewrite run_app, R.
-  destruct (run_fixed k ops _ inv_init) as (IO & _ & IL). fold init in IO, IL. rewrite R in IO, IL.
+  destruct (run_init k ops) as (IO & _ & IL). fold init in IO, IL. rewrite R in IO, IL.
   cbn [fst snd close_last] in IO, IL.
   destruct (IO s eq_refl) as ([Hw Hc] & Hacc & _). cbn [buf concat app] in Hacc.
   destruct s as [b cr w]. cbn [buf closereq writing] in *.
@@ -414,8 +465,8 @@ Proof.
     rewrite !app_length, skipn_length. apply Nat.ltb_lt in E.
     assert (1 <= n). { subst n. destruct d; cbn [length] in *; lia. } lia.
   - destruct rest as [|d2 rest2].
-    + destruct cr; cbn [fst]; intros E'; [discriminate|]. injection E' as <-. cbn [buf]. unfold load.
-      cbn [concat length]. lia.
+    + destruct cr; cbn [fst]; intros E'; [discriminate|]. injection E' as <-. unfold empty. cbn [buf].
+      unfold load. cbn [concat length]. lia.
     + cbn [fst]. intros E'. injection E' as <-. cbn [buf]. unfold load. cbn [concat length].
       rewrite !app_length. lia.
 Qed.
@@ -463,3 +514,357 @@ Proof. vm_compute. intros [rest H]. discriminate H. Qed.
 Definition ex_ops : list op :=
   [Write [1; 2; 3]%N; Write []; Write [4; 5]%N; Tick (Refuse EAGAIN); Tick (Accept 2); Close;
    Tick (Accept 9); Tick (Refuse EINTR); Tick (Accept 0); Tick (Accept 9); Write [6]%N; Tick (Accept 9)].
+
+(* ---------------------------------------------------------------- the code before the repairs keeps state for,
+   and reacts to, operations that arrive after the close *)
+Definition late_witness : list op := [Close; Write [7%N]; Close].
+
+Lemma legacy_file_keeps_state :
+  fst (run (legacy File) init late_witness) =
+  Closed {| buf := [[7%N]]; closereq := true; writing := true |}.
+Proof. vm_compute. reflexivity. Qed.
+
+Lemma legacy_file_late_unmodelled :
+  existsb is_unmodelled (snd (run (legacy File) init (late_witness ++ [Tick (Accept 9%N)]))) = true.
+Proof. vm_compute. reflexivity. Qed.
+
+(* ================================================================ the Server with its tables *)
+
+Lemma mem_In t l : mem t l = true <-> In t l.
+Proof.
+  unfold mem. rewrite existsb_exists. split.
+  - intros [x [Hx E]]. apply Nat.eqb_eq in E. subst. exact Hx.
+  - intros H. exists t. split; [exact H|apply Nat.eqb_refl].
+Qed.
+
+Lemma mem_notIn t l : mem t l = false <-> ~ In t l.
+Proof. rewrite <- mem_In. destruct (mem t l); split; congruence. Qed.
+
+Lemma mem_cons s x l : mem s (x :: l) = Nat.eqb s x || mem s l.
+Proof. reflexivity. Qed.
+
+Lemma mem_remove1_neq s t l : s <> t -> mem s (remove1 t l) = mem s l.
+Proof.
+  intros N. induction l as [|x r IH]; [reflexivity|]. cbn [remove1].
+  destruct (Nat.eqb t x) eqn:E.
+  - apply Nat.eqb_eq in E. subst x. rewrite mem_cons.
+    replace (Nat.eqb s t) with false by (symmetry; apply Nat.eqb_neq; exact N). reflexivity.
+  - rewrite !mem_cons, IH. reflexivity.
+Qed.
+
+Lemma mem_remove1_eq t l : NoDup l -> mem t (remove1 t l) = false.
+Proof.
+  induction 1 as [|x r Hx Hr IH]; [reflexivity|]. cbn [remove1].
+  destruct (Nat.eqb t x) eqn:E.
+  - apply Nat.eqb_eq in E. subst x. apply mem_notIn. exact Hx.
+  - rewrite mem_cons, E, IH. reflexivity.
+Qed.
+
+Lemma In_remove1 s t l : In s (remove1 t l) -> In s l.
+Proof.
+  induction l as [|x r IH]; [intros []|]. cbn [remove1]. destruct (Nat.eqb t x).
+  - intros H. right. exact H.
+  - intros [H|H]; [left; exact H|right; exact (IH H)].
+Qed.
+
+Lemma NoDup_remove1 t l : NoDup l -> NoDup (remove1 t l).
+Proof.
+  induction 1 as [|x r Hx Hr IH]; [constructor|]. cbn [remove1]. destruct (Nat.eqb t x); [exact Hr|].
+  constructor; [|exact IH]. intros H. apply Hx. exact (In_remove1 _ _ _ H).
+Qed.
+
+Lemma mem_app s a b : mem s (a ++ b) = mem s a || mem s b.
+Proof. apply existsb_app. Qed.
+
+Lemma mem_add1_eq t l : mem t (add1 t l) = true.
+Proof.
+  unfold add1. destruct (mem t l) eqn:E; [exact E|].
+  rewrite mem_app, E. cbn. rewrite Nat.eqb_refl. reflexivity.
+Qed.
+
+Lemma mem_add1_neq s t l : s <> t -> mem s (add1 t l) = mem s l.
+Proof.
+  intros N. unfold add1. destruct (mem t l); [reflexivity|].
+  rewrite mem_app. cbn. replace (Nat.eqb s t) with false by (symmetry; apply Nat.eqb_neq; exact N).
+  rewrite !orb_false_r. reflexivity.
+Qed.
+
+Lemma NoDup_add1 t l : NoDup l -> NoDup (add1 t l).
+Proof.
+  intros H. unfold add1. destruct (mem t l) eqn:E; [exact H|].
+  apply mem_notIn in E. induction H as [|x r Hx Hr IH]; cbn [app].
+  - constructor; [intros []|constructor].
+  - constructor.
+    + rewrite in_app_iff. intros [I|[I|[]]]; [exact (Hx I)|]. subst. apply E. left. reflexivity.
+    + apply IH. intros I. apply E. right. exact I.
+Qed.
+
+Lemma dget_dset_eq t v b : dget t (dset t v b) = v.
+Proof.
+  induction b as [|[x w] r IH]; cbn [dset dget].
+  - rewrite Nat.eqb_refl. reflexivity.
+  - destruct (Nat.eqb t x) eqn:E; cbn [dget]; [rewrite Nat.eqb_refl|rewrite E]; [reflexivity|exact IH].
+Qed.
+
+Lemma dget_dset_neq s t v b : s <> t -> dget s (dset t v b) = dget s b.
+Proof.
+  intros N. apply Nat.eqb_neq in N. induction b as [|[x w] r IH]; cbn [dset dget].
+  - rewrite N. reflexivity.
+  - destruct (Nat.eqb t x) eqn:E; cbn [dget].
+    + apply Nat.eqb_eq in E. subst x. rewrite N. reflexivity.
+    + rewrite IH. reflexivity.
+Qed.
+
+Lemma dget_ddel_eq t b : dget t (ddel t b) = [].
+Proof.
+  unfold ddel. induction b as [|[x w] r IH]; [reflexivity|]. cbn [filter fst].
+  destruct (Nat.eqb t x) eqn:E; cbn [negb]; [exact IH|]. cbn [dget]. rewrite E. exact IH.
+Qed.
+
+Lemma dget_ddel_neq s t b : s <> t -> dget s (ddel t b) = dget s b.
+Proof.
+  intros N. unfold ddel. induction b as [|[x w] r IH]; [reflexivity|]. cbn [filter fst].
+  destruct (Nat.eqb t x) eqn:E; cbn [negb dget].
+  - apply Nat.eqb_eq in E. subst x. apply Nat.eqb_neq in N. rewrite N. exact IH.
+  - rewrite IH. reflexivity.
+Qed.
+
+Definition wf (m : srv) : Prop := NoDup (clients m) /\ NoDup (closeq m) /\ NoDup (writers m).
+
+Definition SP : policy := fixed Server.
+
+Ltac tables := cbn [clients buffers closeq writers with_buffers].
+Ltac other N :=
+  unfold view; tables;
+  rewrite ?(mem_remove1_neq _ _ _ N), ?(mem_add1_neq _ _ _ N), ?(dget_dset_neq _ _ _ _ N),
+          ?(dget_ddel_neq _ _ _ N); reflexivity.
+
+(* Server._close(t) for a connected socket *)
+Lemma s_close1_ref m t : wf m -> mem t (clients m) = true ->
+  snd (s_close1 m t) = closing /\ wf (fst (s_close1 m t)) /\
+  view (fst (s_close1 m t)) t = Closed empty /\
+  forall s, s <> t -> view (fst (s_close1 m t)) s = view m s.
+Proof.
+  intros (W1 & W2 & W3) C. unfold s_close1. rewrite C. cbn [fst snd]. split; [reflexivity|]. split; [|split].
+  - repeat split; tables; apply NoDup_remove1; assumption.
+  - unfold view. tables. rewrite !mem_remove1_eq, dget_ddel_eq by assumption. reflexivity.
+  - intros s N. other N.
+Qed.
+
+Lemma s_after_ref m t evs : wf m -> mem t (clients m) = true -> mem t (writers m) = true ->
+  wf (fst (s_after m t evs)) /\
+  (view (fst (s_after m t evs)) t, snd (s_after m t evs)) =
+    after_write {| buf := dget t (buffers m); closereq := mem t (closeq m); writing := true |} evs /\
+  forall s, s <> t -> view (fst (s_after m t evs)) s = view m s.
+Proof.
+  intros W C Wr. pose proof W as (W1 & W2 & W3). unfold s_after, after_write. cbn [buf closereq writing].
+  destruct (dget t (buffers m)) as [|d0 b0] eqn:B.
+  - destruct (mem t (closeq m)) eqn:Q.
+    + set (m0 := {| clients := clients m; buffers := buffers m; closeq := remove1 t (closeq m);
+                    writers := writers m |}).
+      assert (W0 : wf m0) by (repeat split; tables; try assumption; apply NoDup_remove1; assumption).
+      destruct (s_close1_ref m0 t W0 C) as (E1 & E2 & E3 & E4).
+      destruct (s_close1 m0 t) as [m1 e1]. cbn [fst snd] in *. subst e1. split; [exact E2|]. split.
+      * rewrite E3. reflexivity.
+      * intros s N. rewrite (E4 s N). unfold m0. other N.
+    + cbn [fst snd]. split; [|split].
+      * repeat split; tables; try assumption. apply NoDup_remove1; assumption.
+      * unfold view. tables. rewrite C, B, Q, mem_remove1_eq by assumption. reflexivity.
+      * intros s N. other N.
+  - cbn [fst snd]. split; [exact W|]. split; [|reflexivity].
+    unfold view. rewrite C, B, Wr. reflexivity.
+Qed.
+
+Lemma wf_with_buffers m b : wf m -> wf (with_buffers m b).
+Proof. intros H. exact H. Qed.
+
+Lemma view_with_buffers_neq m t b s : s <> t -> view (with_buffers m (dset t b (buffers m))) s = view m s.
+Proof. intros N. other N. Qed.
+
+(* one operation on socket t: socket t makes the per-connection step, every other socket keeps its state *)
+Lemma s_op_ref m t o : wf m ->
+  let r := match o with Write d => s_write m t d | Close => s_close m t | Tick oc => s_tick m t oc end in
+  wf (fst r) /\ (view (fst r) t, snd r) = step SP (view m t) o /\
+  forall s, s <> t -> view (fst r) s = view m s.
+Proof.
+  intros W. pose proof W as (W1 & W2 & W3). destruct o as [d| |oc]; cbn zeta.
+  - (* write *)
+    unfold s_write. destruct (mem t (clients m)) eqn:C; cbn [fst snd].
+    + split; [|split].
+      * repeat split; tables; try assumption. apply NoDup_add1; assumption.
+      * unfold view. tables. rewrite C, dget_dset_eq, mem_add1_eq. reflexivity.
+      * intros s N. other N.
+    + split; [exact W|]. split; [|reflexivity]. unfold view. rewrite C. reflexivity.
+  - (* close *)
+    unfold s_close. destruct (mem t (clients m)) eqn:C.
+    + destruct (dget t (buffers m)) as [|d0 b0] eqn:B.
+      * destruct (s_close1_ref m t W C) as (E1 & E2 & E3 & E4).
+        destruct (s_close1 m t) as [m1 e1]. cbn [fst snd] in *. subst e1. split; [exact E2|]. split; [|exact E4].
+        rewrite E3. unfold view. rewrite C. cbn [step buf]. rewrite B. reflexivity.
+      * cbn [fst snd]. split; [|split].
+        -- repeat split; tables; try assumption. apply NoDup_add1; assumption.
+        -- unfold view. tables. rewrite C, mem_add1_eq. cbn [step buf closereq writing]. rewrite B. reflexivity.
+        -- intros s N. other N.
+    + cbn [fst snd]. split; [exact W|]. split; [|reflexivity]. unfold view. rewrite C. reflexivity.
+  - (* poller iteration *)
+    unfold s_tick. destruct (mem t (writers m)) eqn:Wr; cbn [negb].
+    2:{ cbn [fst snd]. split; [exact W|]. split; [|reflexivity]. unfold view.
+        destruct (mem t (clients m)); cbn [step]; unfold tick; cbn [writing]; rewrite Wr; reflexivity. }
+    destruct (mem t (clients m)) eqn:C; cbn [negb].
+    2:{ cbn [fst snd]. split; [exact W|]. split; [|reflexivity]. unfold view. rewrite C. cbn [step writing].
+        rewrite Wr. reflexivity. }
+    assert (V : view m t = Open {| buf := dget t (buffers m); closereq := mem t (closeq m); writing := true |}).
+    { unfold view. rewrite C, Wr. reflexivity. }
+    rewrite V. cbn [step]. unfold tick. cbn [buf closereq writing negb].
+    destruct (dget t (buffers m)) as [|d rest] eqn:B.
+    + destruct (s_after_ref m t [] W C Wr) as (A1 & A2 & A3). rewrite B in A2.
+      split; [exact A1|]. split; [exact A2|exact A3].
+    + destruct oc as [kk|e].
+      * set (n := N.to_nat (N.min kk (N.of_nat (length d)))).
+        set (b := if n <? length d then skipn n d :: rest else rest).
+        set (m0 := with_buffers m (dset t b (buffers m))).
+        destruct (s_after_ref m0 t [Send d n] W C Wr) as (A1 & A2 & A3).
+        unfold m0 at 2 3 in A2. tables. cbn [buffers with_buffers closeq] in A2. rewrite dget_dset_eq in A2.
+        split; [exact A1|]. split; [exact A2|].
+        intros s N. rewrite (A3 s N). apply view_with_buffers_neq. exact N.
+      * unfold SP. rewrite fixed_requeue, fixed_ignore. destruct (transient e) eqn:T.
+        -- set (m0 := with_buffers m (dset t (d :: rest) (buffers m))).
+           destruct (s_after_ref m0 t [SendErr d e] W C Wr) as (A1 & A2 & A3).
+           unfold m0 at 2 3 in A2. cbn [buffers with_buffers closeq] in A2. rewrite dget_dset_eq in A2.
+           split; [exact A1|]. split; [exact A2|].
+           intros s N. rewrite (A3 s N). apply view_with_buffers_neq. exact N.
+        -- cbn [quiet fixed].
+           set (m0 := with_buffers m (dset t rest (buffers m))).
+           destruct (s_close1_ref m0 t W C) as (E1 & E2 & E3 & E4).
+           destruct (s_close1 m0 t) as [m1 e1]. cbn [fst snd] in *. subst e1.
+           split; [exact E2|]. split; [rewrite E3; reflexivity|].
+           intros s N. rewrite (E4 s N). apply view_with_buffers_neq. exact N.
+Qed.
+
+Lemma projev_app s a b : projev s (a ++ b) = projev s a ++ projev s b.
+Proof.
+  induction a as [|[t e] a IH]; [reflexivity|]. cbn [app projev]. destruct (Nat.eqb t s); rewrite IH; reflexivity.
+Qed.
+
+Lemma projev_tag_eq t evs : projev t (tag t evs) = evs.
+Proof. induction evs as [|e r IH]; [reflexivity|]. cbn [tag map projev]. rewrite Nat.eqb_refl. f_equal. exact IH. Qed.
+
+Lemma projev_tag_neq s t evs : s <> t -> projev s (tag t evs) = [].
+Proof.
+  intros N. induction evs as [|e r IH]; [reflexivity|]. cbn [tag map projev].
+  replace (Nat.eqb t s) with false by (symmetry; apply Nat.eqb_neq; congruence). exact IH.
+Qed.
+
+(* close(): the loop over a duplicate-free list of sockets *)
+Lemma s_close_list_ref : forall l m, wf m -> NoDup l ->
+  wf (fst (s_close_list m l)) /\
+  forall s,
+    view (fst (s_close_list m l)) s = (if mem s l then fst (step SP (view m s) Close) else view m s) /\
+    projev s (snd (s_close_list m l)) = (if mem s l then snd (step SP (view m s) Close) else []).
+Proof.
+  induction l as [|t r IH]; intros m W ND; cbn [s_close_list].
+  - cbn [fst snd]. split; [exact W|]. intros s. split; reflexivity.
+  - inversion ND as [|? ? Ht Hr]; subst.
+    destruct (s_op_ref m t Close W) as (O1 & O2 & O3). cbn zeta in *.
+    destruct (s_close m t) as [m1 e1]. cbn [fst snd] in *.
+    destruct (IH m1 O1 Hr) as (I1 & I2). destruct (s_close_list m1 r) as [m2 e2]. cbn [fst snd] in *.
+    split; [exact I1|]. intros s. destruct (I2 s) as (J1 & J2). rewrite mem_cons, projev_app.
+    destruct (Nat.eqb s t) eqn:E; cbn [orb].
+    + apply Nat.eqb_eq in E. subst s. apply mem_notIn in Ht. rewrite Ht in J1, J2.
+      rewrite J1, J2, projev_tag_eq, app_nil_r. rewrite <- O2. split; reflexivity.
+    + apply Nat.eqb_neq in E. rewrite (projev_tag_neq s t e1 E), J1, J2, (O3 s E). split; reflexivity.
+Qed.
+
+Lemma proj_single s t o : proj s [On t o] = if Nat.eqb t s then [o] else [].
+Proof. cbn [proj]. destruct (Nat.eqb t s); reflexivity. Qed.
+
+(* one server operation, seen from any socket s: s makes exactly the per-connection steps that concern it *)
+Lemma mstep_ref m o : wf m ->
+  wf (fst (mstep m o)) /\
+  forall s, view (fst (mstep m o)) s = fst (run SP (view m s) (proj s [o])) /\
+            projev s (snd (mstep m o)) = snd (run SP (view m s) (proj s [o])).
+Proof.
+  intros W. destruct o as [t o|].
+  - pose proof (s_op_ref m t o W) as R. cbn zeta in R.
+    assert (G : forall r, wf (fst r) /\ (view (fst r) t, snd r) = step SP (view m t) o /\
+                          (forall s, s <> t -> view (fst r) s = view m s) ->
+                wf (fst r) /\ forall s, view (fst r) s = fst (run SP (view m s) (proj s [On t o])) /\
+                                        projev s (tag t (snd r)) = snd (run SP (view m s) (proj s [On t o]))).
+    { intros r (R1 & R2 & R3). split; [exact R1|]. intros s. rewrite proj_single.
+      destruct (Nat.eqb t s) eqn:E.
+      - apply Nat.eqb_eq in E. subst s. cbn [run]. rewrite <- R2. cbn [fst snd].
+        rewrite projev_tag_eq, app_nil_r. split; reflexivity.
+      - apply Nat.eqb_neq in E. cbn [run fst snd]. rewrite R3 by congruence.
+        rewrite projev_tag_neq by congruence. split; reflexivity. }
+    destruct o as [d| |oc]; cbn [mstep].
+    + specialize (G (s_write m t d) R). destruct (s_write m t d). exact G.
+    + specialize (G (s_close m t) R). destruct (s_close m t). exact G.
+    + specialize (G (s_tick m t oc) R). destruct (s_tick m t oc). exact G.
+  - cbn [mstep]. pose proof W as (W1 & _).
+    destruct (s_close_list_ref (clients m) m W W1) as (L1 & L2). split; [exact L1|].
+    intros s. destruct (L2 s) as (J1 & J2). cbn [proj run].
+    destruct (step SP (view m s) Close) as [st e] eqn:ES. cbn [fst snd] in *. rewrite app_nil_r.
+    destruct (mem s (clients m)) eqn:C; [split; assumption|].
+    rewrite J1, J2. unfold view in ES. rewrite C in ES. cbn [step SP fixed closed_guard] in ES.
+    injection ES as <- <-. unfold view. rewrite C. split; reflexivity.
+Qed.
+
+Lemma proj_cons s o r : proj s (o :: r) = proj s [o] ++ proj s r.
+Proof. destruct o as [t o|]; cbn [proj]; [destruct (Nat.eqb t s)|]; reflexivity. Qed.
+
+(* the refinement: the Server's tables, projected on any socket, behave as the per-connection model *)
+Lemma server_refines : forall ops m s, wf m ->
+  view (fst (mrun m ops)) s = fst (run SP (view m s) (proj s ops)) /\
+  projev s (snd (mrun m ops)) = snd (run SP (view m s) (proj s ops)).
+Proof.
+  induction ops as [|o r IH]; intros m s W; [split; reflexivity|].
+  cbn [mrun]. destruct (mstep_ref m o W) as (W1 & R). destruct (R s) as (R1 & R2).
+  destruct (mstep m o) as [m1 e1]. cbn [fst snd] in *.
+  destruct (IH m1 s W1) as (I1 & I2). destruct (mrun m1 r) as [m2 e2]. cbn [fst snd] in *.
+  rewrite proj_cons, run_app, projev_app.
+  destruct (run SP (view m s) (proj s [o])) as [st1 x1]. cbn [fst snd] in *. subst st1 x1.
+  destruct (run SP (view m1 s) (proj s r)) as [st2 x2]. cbn [fst snd] in *. subst st2 x2.
+  split; reflexivity.
+Qed.
+
+Lemma wf_fresh l : NoDup l -> wf (fresh l).
+Proof. intros H. repeat split; [exact H|constructor|constructor]. Qed.
+
+Lemma view_fresh l s : In s l -> view (fresh l) s = init.
+Proof. intros H. apply mem_In in H. unfold view, fresh. tables. rewrite H. reflexivity. Qed.
+
+(* isolation: what socket s is handed, and its state, depend only on the operations and outcomes for s *)
+Lemma server_isolation l ops1 ops2 s : NoDup l -> proj s ops1 = proj s ops2 ->
+  projev s (snd (mrun (fresh l) ops1)) = projev s (snd (mrun (fresh l) ops2)) /\
+  view (fst (mrun (fresh l) ops1)) s = view (fst (mrun (fresh l) ops2)) s.
+Proof.
+  intros ND E. destruct (server_refines ops1 (fresh l) s (wf_fresh l ND)) as (A1 & A2).
+  destruct (server_refines ops2 (fresh l) s (wf_fresh l ND)) as (B1 & B2).
+  rewrite A1, A2, B1, B2, E. split; reflexivity.
+Qed.
+
+(* per connection, for any interleaving: sent ++ buffered = written *)
+Lemma server_prefix l ops s : NoDup l -> In s l ->
+  exists rest, accepted (projev s (snd (mrun (fresh l) ops))) ++ rest = written (proj s ops) /\
+               forall o, view (fst (mrun (fresh l) ops)) s = Open o -> rest = concat (buf o).
+Proof.
+  intros ND I. destruct (server_refines ops (fresh l) s (wf_fresh l ND)) as (A1 & A2).
+  rewrite A1, A2, (view_fresh l s I). apply prefix_all.
+Qed.
+
+Lemma server_nothing_after_close l ops1 ops2 s c : NoDup l -> In s l ->
+  view (fst (mrun (fresh l) ops1)) s = Closed c ->
+  c = empty /\
+  view (fst (mrun (fresh l) (ops1 ++ ops2))) s = Closed empty /\
+  projev s (snd (mrun (fresh l) (ops1 ++ ops2))) = projev s (snd (mrun (fresh l) ops1)).
+Proof.
+  intros ND I C. pose proof (wf_fresh l ND) as W.
+  destruct (server_refines ops1 (fresh l) s W) as (A1 & A2).
+  destruct (server_refines (ops1 ++ ops2) (fresh l) s W) as (B1 & B2).
+  rewrite (view_fresh l s I) in *. rewrite A1 in C.
+  assert (P : proj s (ops1 ++ ops2) = proj s ops1 ++ proj s ops2).
+  { clear. induction ops1 as [|o r IH]; [reflexivity|]. cbn [app]. rewrite proj_cons, (proj_cons s o r), IH, app_assoc.
+    reflexivity. }
+  rewrite P in B1, B2. destruct (nothing_after_close Server (proj s ops1) (proj s ops2) c C) as (-> & N).
+  fold SP in N. rewrite N in B1, B2. rewrite B1, B2, A2, C. repeat split; reflexivity.
+Qed.
